@@ -588,8 +588,20 @@ var c15ExclStar = regexp.MustCompile(`\$\{![A-Za-z_][A-Za-z0-9_]*\*([^}]|$)`)
 //     number exceeds 2^18-1 and whose column there exceeds 2^14-1: positions
 //     have an offset but line 0 and column 0; IsValid is false for them, so the
 //     encoder drops them and the offset is lost.
+//   - recovered-caseitem-without-patterns: with RecoverErrors the parser
+//     accepts "case x in (" at the end of the input and builds a CaseItem with
+//     no patterns; CaseItem.Pos indexes Patterns[0], so Encode (which calls
+//     Pos on every node) panics.
 func c15RTClass(t c15Case, tr c15Tree, recovered bool, n syntax.Node, r c15Result) string {
 	switch r.what {
+	case "encode-panic":
+		if tr.label == "recovered" && strings.Contains(r.msg, "index out of range [0] with length 0") {
+			for _, sub := range c15AllNodes(n) {
+				if ci, ok := sub.(*syntax.CaseItem); ok && len(ci.Patterns) == 0 {
+					return "recovered-caseitem-without-patterns"
+				}
+			}
+		}
 	case "reencode-differs":
 		if recovered && c15StripDerived(r.enc1) == c15StripDerived(r.enc2) {
 			return "recovered-derived-pos-end"
